@@ -7,7 +7,7 @@ git -C /repo worktree remove --force $W 2>/dev/null; rm -rf $W $B
 git -C /repo worktree add -q --detach $W HEAD || exit 2
 mkdir -p $B
 for d in seeded/*/; do
-  id=$(basename $d); p=${id%-*}
+  id=$(basename $d); p=${id%%-*}
   if ! grep -q "\"property_id\": \"$p\"" MANIFEST.json; then echo "$id $p not-claimed"; continue; fi
   if ! git -C $W apply --3way /verif/seeded/$id/patch.diff >/dev/null 2>&1; then echo "$id $p patch-does-not-apply"; git -C $W reset -q; git -C $W checkout -- .; continue; fi
   git -C $W reset -q
